@@ -247,12 +247,24 @@ Proof.
   - unfold initial_phase. discriminate.
 Qed.
 
+(* THE CLOSED WORLD: connectionMade does not reach switchToBanana -- the model starts with nothing registered.  By computation on the
+   translated do_negotiation / connection_made_switches (read from the whole package); a tree in which the non-negotiating branch is
+   live makes this lemma, and with it every theorem below, fail *)
+Lemma bytes_start_is_init r tgt : b_connection_made r tgt = b_init.
+Proof. reflexivity. Qed.
+
+(* WHY the closed world is needed (the region the translator excludes): were the non-negotiating branch of connectionMade live, a
+   client would register the dialled id before a single byte -- let alone a certificate -- was seen *)
+Theorem without_negotiation_refuted : forall tgt,
+  b_attached (b_connection_made_with true Client tgt) = [tgt] /\ b_passed (b_connection_made_with true Client tgt) = [].
+Proof. intros tgt. split; reflexivity. Qed.
+
 Lemma brecv_all_inv r my tgt p chunks : binv r my tgt p (brecv_all r my tgt p chunks).
 Proof.
   unfold IdentityBytes.brecv_all.
   assert (G : forall st, binv r my tgt p st -> binv r my tgt p (fold_left (brecv_chunk r my tgt p) chunks st)).
   { induction chunks as [|c cs IH]; intros st Hst; cbn [fold_left]; [exact Hst|]. apply IH. apply brecv_chunk_inv. exact Hst. }
-  apply G. apply b_init_inv.
+  apply G. rewrite bytes_start_is_init. apply b_init_inv.
 Qed.
 
 (* ARBITRARY BYTES, ANY CHUNKING, from the first byte of the connection: every key ever handed to Tub.brokerAttached is the
@@ -390,6 +402,140 @@ Proof.
   destruct (is_abandoned (b_phase (brecv_all r my tgt p chunks))) eqn:EA.
   { apply rphase_eqb_eq in EA. contradiction. }
   reflexivity.
+Qed.
+
+(* ------------------------------------------------------------------ the PLAINTEXT guards are not opaque
+   What the two translated plaintext handlers decide is what the receive loop does, and nothing else moves the object out of the
+   PLAINTEXT phase: (1) in that phase a block is handled by the guard of this end's role, exactly; (2) the phase is left only by a
+   block that passed the guard; (3) for a listener, passing the guard IS the session model's server_lookup on the id the GET named. *)
+Notation plain_guard := (plain_guard decode redirect).
+
+Theorem bhandle_plaintext_exact r my tgt p st hdr :
+  b_phase st = RPlaintext ->
+  bhandle r my tgt p st hdr =
+  match plain_guard r my hdr with
+  | Ok _ => (enter_encrypted st, false)
+  | Exc w => (raised st (b_phase st) (b_their st) w, true)
+  end.
+Proof.
+  intros H. unfold IdentityBytes.bhandle, IdentityBytes.plain_guard. rewrite H.
+  destruct r; cbn [is_client].
+  - change (dispatch RPlaintext true) with HPlaintextClient. reflexivity.
+  - change (dispatch RPlaintext false) with HPlaintextServer. reflexivity.
+Qed.
+
+(* a block refused by the plaintext guard: exception, and the object is in the PLAINTEXT phase as before (no TLS, no hello sent) *)
+Corollary plaintext_refused_stays_plaintext r my tgt p st hdr w :
+  b_phase st = RPlaintext -> plain_guard r my hdr = Exc w ->
+  snd (bhandle r my tgt p st hdr) = true /\ b_phase (fst (bhandle r my tgt p st hdr)) = RPlaintext.
+Proof.
+  intros H G. rewrite (bhandle_plaintext_exact r my tgt p st hdr H), G. cbn [fst snd]. split; [reflexivity|].
+  unfold raised, rexc, phase_set_by_error_handler. cbn [b_phase]. exact H.
+Qed.
+
+Definition entered (r : role) (my : list Z) (st : bstate) : Prop :=
+  b_phase st <> RPlaintext -> exists hdr, plain_guard r my hdr = Ok tt.
+
+Lemma rphase_plain_dec ph : {ph = RPlaintext} + {ph <> RPlaintext}.
+Proof. destruct ph; [left; reflexivity|right; discriminate]. Qed.
+
+Lemma bhandle_entered r my tgt p st hdr st' exc :
+  entered r my st -> bhandle r my tgt p st hdr = (st', exc) -> entered r my st'.
+Proof.
+  intros He Hb. destruct (rphase_plain_dec (b_phase st)) as [Hp|Hp].
+  - rewrite (bhandle_plaintext_exact r my tgt p st hdr Hp) in Hb.
+    destruct (plain_guard r my hdr) as [[]|w] eqn:G; inversion Hb; subst st' exc.
+    + intros _. exists hdr. exact G.
+    + intros Hn. exfalso. apply Hn. unfold raised, rexc, phase_set_by_error_handler. cbn [b_phase]. exact Hp.
+  - intros _. exact (He Hp).
+Qed.
+
+Lemma raised_entered r my st th w : entered r my st -> entered r my (raised st (b_phase st) th w).
+Proof.
+  intros He Hn. apply He. intros E. apply Hn. unfold raised, rexc, phase_set_by_error_handler. cbn [b_phase]. exact E.
+Qed.
+
+Lemma bdrain_entered r my tgt p fuel : forall st, entered r my st -> entered r my (bdrain fuel r my tgt p st).
+Proof.
+  induction fuel as [|f IH]; intros st He; cbn [IdentityBytes.bdrain]; [exact He|].
+  cbv zeta.
+  destruct (header_verdict _ _ =? 0); [apply raised_entered; exact He|].
+  destruct (header_verdict _ _ =? 1); [exact He|].
+  destruct (find_term (b_buf st)) as [e|]; [|apply raised_entered; exact He].
+  destruct (bhandle r my tgt p (with_bbuf st (skipn (e + 4) (b_buf st))) (firstn e (b_buf st))) as [st2 exc] eqn:EB.
+  assert (He2 : entered r my st2) by (eapply bhandle_entered; [|exact EB]; exact He).
+  destruct exc; [exact He2|].
+  destruct (is_banana (b_phase st2)); [exact He2|].
+  destruct (b_buf st2); [exact He2|].
+  apply IH. exact He2.
+Qed.
+
+Lemma brecv_all_entered r my tgt p chunks : entered r my (brecv_all r my tgt p chunks).
+Proof.
+  unfold IdentityBytes.brecv_all.
+  assert (G : forall st, entered r my st -> entered r my (fold_left (brecv_chunk r my tgt p) chunks st)).
+  { induction chunks as [|c cs IH]; intros st Hst; cbn [fold_left]; [exact Hst|]. apply IH.
+    unfold IdentityBytes.brecv_chunk. destruct (is_banana (b_phase st) || is_abandoned (b_phase st)); [exact Hst|].
+    apply bdrain_entered. exact Hst. }
+  apply G. rewrite bytes_start_is_init. intros Hn. exfalso. apply Hn. reflexivity.
+Qed.
+
+(* ARBITRARY BYTES, ANY CHUNKING: the object is out of the PLAINTEXT phase (TLS started, hello sent, peer's hello looked at, ...)
+   only if one of the header blocks received passed this end's plaintext handler *)
+Theorem bytes_leaves_plaintext_only_through_guard r my tgt p chunks :
+  b_phase (brecv_all r my tgt p chunks) <> RPlaintext -> exists hdr, plain_guard r my hdr = Ok tt.
+Proof. exact (brecv_all_entered r my tgt p chunks). Qed.
+
+(* (3) handlePLAINTEXTServer reached sendPlaintextServerAndStartENCRYPTED exactly when the statements before the listener lookup
+   produced an id on which the session model's server_lookup (lib/Identity.v: session) succeeds; the listener's redirect table
+   plays no part in an acceptance *)
+Theorem server_guard_is_server_lookup my hdr :
+  plaintext_server_guard decode my redirect hdr = Ok tt <->
+  exists req, plaintext_server_requested decode hdr = Ok req /\ server_lookup req my = Ok tt.
+Proof.
+  unfold plaintext_server_guard.
+  assert (NE : forall req, plaintext_server_requested decode hdr = Ok req -> list_is_nil req = false).
+  { intros req. unfold plaintext_server_requested. cbv zeta.
+    repeat match goal with
+           | |- context [match ?x with _ => _ end] => destruct x eqn:?
+           end;
+      intros Hq; try discriminate Hq; inversion Hq; subst; destruct req; try reflexivity; cbn in *; discriminate. }
+  split.
+  - destruct (plaintext_server_requested decode hdr) as [req|w] eqn:ER; [|discriminate].
+    intros H. exists req. split; [reflexivity|].
+    unfold server_lookup. rewrite (NE req eq_refl). unfold listener_dispatch in H.
+    destruct (list_eqb req my); [reflexivity|]. destruct (redirect req); discriminate H.
+  - intros (req & ER & HL). rewrite ER. unfold listener_dispatch. unfold server_lookup in HL.
+    destruct (list_is_nil req); [discriminate HL|]. destruct (list_eqb req my); [reflexivity|discriminate HL].
+Qed.
+
+Corollary server_guard_names_this_tub my hdr :
+  plaintext_server_guard decode my redirect hdr = Ok tt -> plaintext_server_requested decode hdr = Ok my /\ my <> [].
+Proof.
+  intros H. apply server_guard_is_server_lookup in H. destruct H as (req & ER & HL).
+  unfold server_lookup in HL. destruct (list_is_nil req) eqn:EN; [discriminate HL|].
+  destruct (list_eqb req my) eqn:E; [|discriminate HL]. apply list_eqb_eq in E. subst req.
+  split; [exact ER|]. intros E0. subst my. cbn in EN. discriminate EN.
+Qed.
+
+(* a listener registers a key, or as much as looks at a hello, only on a connection whose GET named this very Tub *)
+Theorem bytes_listener_needs_get_for_this_tub my tgt p chunks :
+  b_phase (brecv_all Server my tgt p chunks) <> RPlaintext ->
+  exists hdr, plaintext_server_requested decode hdr = Ok my /\ server_lookup my my = Ok tt /\ my <> [].
+Proof.
+  intros H. destruct (bytes_leaves_plaintext_only_through_guard Server my tgt p chunks H) as (hdr & G).
+  unfold IdentityBytes.plain_guard in G. cbn [is_client] in G.
+  pose proof (server_guard_names_this_tub my hdr G) as [ER Hne].
+  apply server_guard_is_server_lookup in G. destruct G as (req & ER' & HL).
+  rewrite ER in ER'. inversion ER'; subst req. exists hdr. auto.
+Qed.
+
+Corollary bytes_listener_attach_needs_get my tgt p chunks :
+  b_attached (brecv_all Server my tgt p chunks) <> [] ->
+  exists hdr, plaintext_server_requested decode hdr = Ok my /\ server_lookup my my = Ok tt /\ my <> [].
+Proof.
+  intros H. apply bytes_listener_needs_get_for_this_tub with (tgt := tgt) (p := p) (chunks := chunks).
+  intros E. apply H. apply (proj2 (bytes_at_most_one_attach Server my tgt p chunks)). rewrite E. discriminate.
 Qed.
 
 End BytesProofs.
